@@ -310,7 +310,10 @@ def _child_main() -> int:
 
 def _fresh_interpreter(sc: dict) -> dict:
     env = dict(os.environ, PYTHONHASHSEED=str(sc["hashseed"]))
-    p = subprocess.run([sys.executable, "-m", "svsim.props.c04", "child"], input=json.dumps(sc), env=env,
+    from .. import scratch_root
+    other_cwd = os.path.join(scratch_root(), "c04_cwd")       # the fresh interpreter also STARTS (imports) in another directory
+    os.makedirs(other_cwd, exist_ok=True)
+    p = subprocess.run([sys.executable, "-m", "svsim.props.c04", "child"], input=json.dumps(sc), env=env, cwd=other_cwd,
                        capture_output=True, text=True, timeout=200)
     for line in p.stdout.splitlines():
         if line.startswith("RECORD "):
